@@ -958,7 +958,9 @@ func (c *control) getEFGarg(ff *floatFormatter) {
 		if ff.neg = num < 0.0; ff.neg {
 			num = -num
 		}
-		ff.exp = int(math.Floor(math.Log10(num)))
+		if num != 0.0 { // Log10(0) is -Inf
+			ff.exp = int(math.Floor(math.Log10(num)))
+		}
 		ff.digits = strconv.AppendFloat(nil, num, 'e', -1, 64)
 		ff.digits = ff.digits[:bytes.IndexByte(ff.digits, 'e')]
 		if 1 < len(ff.digits) { // remove the decimal point, a single digit has none
